@@ -17,7 +17,8 @@
 EXTENDS Matrix, TLC
 
 CONSTANTS Mutant,     \* "none" | "wrap" | "trunc" | "perterm" | "boundsceil" | "recipwrap" | "nofalse"
-          Wide        \* larger scope (thorough tier)
+          Wide,       \* larger scope (thorough tier)
+          Only        \* the entry points explored (negative configurations name the one their mutant lives in)
 
 MCLimbBits == 5
 
@@ -158,13 +159,14 @@ DomA(f) ==
       [] f = "scale"     -> S5 \X S5 \X {ONE, 1, -2}
       [] f = "translate" -> S5 \X S5 \X {0, 1, MinW}
 DomB(f) ==
-    CASE f \in {"point", "point3d"} -> Si \X S7z \X Sz
+    CASE f = "point"     -> Si \X S7z \X Sz
+      [] f = "point3d"   -> Si \X S7z \X (IF Wide THEN Sz ELSE {1, ONE, MaxW})
       [] f = "multiply"  -> S7 \X S7
       [] f = "bounds"    -> SomeWords \X {0, -1} \X {0, 1, BoxHi} \X {0, 1}
       [] f = "invert"    -> Sq \X Sq \X {0, 5, MinW, MaxW}
       [] f = "scale"     -> SomeWords \X {TRUE, FALSE}
       [] f = "translate" -> SomeWords \X {TRUE, FALSE}
-MCFns == {"point", "point3d", "multiply", "bounds", "invert", "scale", "translate"}
+MCFns == {"point", "point3d", "multiply", "bounds", "invert", "scale", "translate"} \cap Only
 
 PtM == <<<<pa[1], 0, pa[2]>>, <<pa[2], 0, pa[1]>>, <<pa[3], 0, pb[1]>>>>
 PtV == <<pb[2], pb[2], pb[3]>>
